@@ -9,6 +9,7 @@ use c06 as c06_support;
 mod exec;
 mod e2e;
 mod c09;
+mod c09e;
 mod c11;
 mod c12;
 mod c13;
@@ -59,9 +60,11 @@ fn main() {
         ("c07", _) => c07::cmd_run(&args[1..]),
         ("c07-control", _) => c07::cmd_control(&args[1..]),
         ("c09", "run") => c09::cmd_run(rest),
+        ("c09", "e2e") => c09e::cmd_e2e(rest),
         ("c11", "run") => c11::cmd_run(rest),
         ("c12", "run") => c12::cmd_run(rest),
         ("c13", "run") => c13::cmd_run(rest),
+        ("c13", "classify") => c13::cmd_classify(rest),
         ("c14", "run") => c14::cmd_run(rest),
         ("c20", "run") => c20::cmd_run(rest),
         ("c15", "walk") => c15::cmd_walk(rest),
